@@ -14,8 +14,10 @@ import (
 
 func init() {
 	register(&Property{
-		ID:  "C09",
-		Gen: genC09,
+		ID:    "C09",
+		Files: []string{"worker/pool.go", "queue.go"},
+		Funcs: []string{"DefaultWorkerPool", "DefaultInvokable", "NewDefaultWorkerPool", "NewDefaultInvokable"},
+		Gen:   genC09,
 		Rule: "real DefaultWorkerPool over a real BufferedChannelQueue (spawn loop, workers, loader, expiry/jam/retry timers on the fake clock); 1..3 submitter threads issue bursts/trickles of Schedule, " +
 			"ScheduleWithTimeout, Invoke, InvokeWithTimeout; jobs are quick, slow (virtual sleep) or panicking (faults drawn from the tape); configurations drawn within the property's quantifier; " +
 			"fair settle phase with the pool left open; oracles: rejected never runs, at-most-once, exactly-once by the fair horizon, gauge <= workerSizeMaximum, panic-handler log, error necessity, post-close error; " +
